@@ -1,11 +1,174 @@
 /-
-  C20 — property theorems only (placeholder until the refinement proof lands).
+  C20 — (*Schema).CloneSchemas: the clone is a fresh, structurally identical copy and the original is
+  untouched.  Property theorems only (helper lemmas: JSV/Proofs/MshClone.lean, MshNode.lean, MshFacts.lean).
+
+  Vocabulary (defined in JSV/Proofs/MshClone.lean):
+  * `Go.Reach st a b`   : `b` is reachable from `a` through `Node.children` (the model's everyChild).
+  * `Go.Good B st d a`  : the unfolding of `a` in `st` ends within depth `d` (hence it is acyclic — every
+    tree accepted by checkStructure is), where the nil pointers stored inside slices / maps are ids `≥ B`.
+    `B` is any bound on the size of the stores involved (the model's nil id is 10^9), so that a nil
+    pointer stays nil while the clone allocates.  `Go.goodB` is a checker for it.
 -/
-import JSV.Model.Validate
+import JSV.Proofs.MshNode
+import JSV.Proofs.MshFacts
+import JSV.Model.Unmarshal
 namespace JSV.C20
 open JSV Go
 
-theorem validateFuel_zero (env : VEnv) (stack : List NodeId) (i : GoVal) (s : NodeId) :
-    validateFuel env 0 stack i s = .fuel := rfl
+/-- frame: every node of the original store is still there, unchanged (CloneSchemas writes to no
+    existing Schema) -/
+theorem clone_store_extends (st : Store) (root c : NodeId) (st' : Store)
+    (h : Go.clone st root = .ok (c, st')) :
+    st.size ≤ st'.size ∧ ∀ i, i < st.size → st'.get? i = st.get? i :=
+  Go.cloneFuel_ext _ h
+
+/-- freshness: the clone's root is a new id and every id reachable from it in the new store is new:
+    no Schema object is shared with the original (ids `≥ st.size` are no nodes of `st`) -/
+theorem clone_fresh (st : Store) (root c : NodeId) (st' : Store)
+    (h : Go.clone st root = .ok (c, st')) :
+    st.size ≤ c ∧ ∀ b, Go.Reach st' c b → st.size ≤ b ∧ st.get? b = none := by
+  have hf : Go.FreshAbove st.size st := by
+    intro i n hi hn
+    exact absurd (Go.lt_size_of_get? hn) (Nat.not_lt_of_le hi)
+  have r := Go.cloneFuel_fresh st.size _ (Nat.le_refl _) h
+  refine ⟨r.1, fun b hb => ?_⟩
+  have hb' := Go.Reach.fresh (r.2 hf) hb r.1
+  exact ⟨hb', Go.get?_eq_none_iff.2 hb'⟩
+
+/-- the same, for the model's own traversal `Go.reachable` -/
+theorem clone_fresh_reachable (st : Store) (root c : NodeId) (st' : Store)
+    (h : Go.clone st root = .ok (c, st')) (fuel : Nat) :
+    ∀ b, b ∈ Go.reachable st' fuel [c] → st.size ≤ b ∧ st.get? b = none := by
+  intro b hb
+  obtain ⟨a, ha, hr⟩ := Go.reachable_sound st' fuel [c] b hb
+  cases List.mem_singleton.1 ha
+  exact (clone_fresh st root c st' h).2 b hr
+
+/-- nil.CloneSchemas() = nil, nothing is allocated -/
+theorem clone_nil (st : Store) (root : NodeId) (h : st.get? root = none) :
+    Go.clone st root = .ok (root, st) :=
+  Go.cloneStep_none h
+
+/-- the cloned root is a shallow copy: it equals the original node on every non-schema field
+    (title, enum, required, extra, propertyOrder, …) -/
+theorem clone_shallow_fields (st : Store) (root c : NodeId) (st' : Store) (n : Node)
+    (hn : st.get? root = some n) (h : Go.clone st root = .ok (c, st')) :
+    ∃ n', st'.get? c = some n' ∧
+      { n' with
+        defs := n.defs, additionalItems := n.additionalItems, additionalProperties := n.additionalProperties,
+        allOf := n.allOf, anyOf := n.anyOf, contains := n.contains, contentSchema := n.contentSchema,
+        definitions := n.definitions, dependencySchemas := n.dependencySchemas,
+        dependentSchemas := n.dependentSchemas, else_ := n.else_, if_ := n.if_, items := n.items,
+        itemsArray := n.itemsArray, not := n.not, oneOf := n.oneOf, patternProperties := n.patternProperties,
+        prefixItems := n.prefixItems, properties := n.properties, propertyNames := n.propertyNames,
+        then_ := n.then_, unevaluatedItems := n.unevaluatedItems,
+        unevaluatedProperties := n.unevaluatedProperties } = n := by
+  obtain ⟨fs', s', _, rfl, rfl⟩ := Go.cloneStep_some hn h
+  exact ⟨_, Go.get?_push_size _ _, rfl⟩
+
+/-- … and its schema-bearing fields have the same shape (nil / length / keys) as the original's -/
+theorem clone_same_shape (st : Store) (root c : NodeId) (st' : Store) (n : Node)
+    (hn : st.get? root = some n) (h : Go.clone st root = .ok (c, st')) :
+    ∃ n', st'.get? c = some n' ∧
+      Go.ListRel (Go.FieldRel fun _ _ => True) n.childFields n'.childFields := by
+  obtain ⟨fs', s', h1, rfl, rfl⟩ := Go.cloneStep_some hn h
+  have r := Go.cloneFields_inv
+    (Go.cloneInv_ext (fun _ _ _ _ h' => Go.cloneFuel_ext _ h')) trivial (fun _ _ _ _ => trivial) h1
+  refine ⟨_, Go.get?_push_size _ _, ?_⟩
+  rw [Go.childFields_set r.2]
+  exact r.2
+
+/-- the clone marshals identically, with every amount of fuel.  Hypotheses: the original is acyclic
+    (`Good … d root`, any depth `d`) and nil pointers inside slices / maps stay nil (`st'.size ≤ B`). -/
+theorem clone_marshal_eq (B d : Nat) (st : Store) (root c : NodeId) (st' : Store)
+    (hg : Go.Good B st d root) (h : Go.clone st root = .ok (c, st')) (hB : st'.size ≤ B) (f : Nat) :
+    Go.marshalFuel st' f c = Go.marshalFuel st f root := by
+  have hs := Go.cloneFuel_sim B st _ d (Go.Ext.refl st) hg h hB
+  have hext := Go.cloneFuel_ext _ h
+  exact (Go.Sim.marshal_eq (Nat.le_trans hext.1 hB) hB f d root c hs).symm
+
+/-- … and the original still marshals as before in the new store (consequence of the frame) -/
+theorem clone_original_marshal_unchanged (B d : Nat) (st : Store) (root c : NodeId) (st' : Store)
+    (hg : Go.Good B st d root) (h : Go.clone st root = .ok (c, st')) (hB : st'.size ≤ B) (f : Nat) :
+    Go.marshalFuel st' f root = Go.marshalFuel st f root := by
+  rw [← clone_marshal_eq B d st root c st' hg h hB f]
+  have hs := Go.cloneFuel_sim B st _ d (Go.Ext.refl st) hg h hB
+  have hext := Go.cloneFuel_ext _ h
+  -- both `root` and `c` are copies of `root` in `st`; compare through `st`
+  have h1 := Go.Sim.marshal_eq (Nat.le_trans hext.1 hB) hB f d root c hs
+  have h2 := Go.Sim.marshal_eq (Nat.le_trans hext.1 hB) hB f d root root (Go.Sim.of_good hext d root hg)
+  rw [← h2, h1]
+
+/-- the 23 fields cloneStep rewrites are exactly the Schema-typed fields of the Go struct: every field
+    whose Go type mentions `Schema` has type `*Schema`, `[]*Schema` or `map[string]*Schema`; there are 23
+    of them, as many as `Node.childFields` (13 + 5 + 5 by kind); and the JSON names agree -/
+theorem childFields_cover_generated :
+    ((Generated.schemaFields.filter fun f => Go.mentionsSchema f.2.1).all fun f =>
+        f.2.1 == "*Schema" || f.2.1 == "[]*Schema" || f.2.1 == "map[string]*Schema") = true ∧
+    (Generated.schemaFields.filter fun f => Go.mentionsSchema f.2.1).length = 23 ∧
+    (Node.childFields {}).length = 23 ∧
+    (Generated.schemaFields.filter fun f => f.2.1 == "*Schema").length
+      = ((Node.childFields {}).filter fun f => match f with | .one _ _ => true | _ => false).length ∧
+    (Generated.schemaFields.filter fun f => f.2.1 == "[]*Schema").length
+      = ((Node.childFields {}).filter fun f => match f with | .many _ _ => true | _ => false).length ∧
+    (Generated.schemaFields.filter fun f => f.2.1 == "map[string]*Schema").length
+      = ((Node.childFields {}).filter fun f => match f with | .keyed _ _ => true | _ => false).length ∧
+    -- tagged Schema-typed fields: the JSON name and the kind are those of `childFields`
+    ((Generated.schemaFields.filter fun f => Go.mentionsSchema f.2.1 && f.2.2.1 != "-").all fun f =>
+        (Node.childFields {}).any fun cf => match cf with
+          | .one k _ => k == f.2.2.1 && f.2.1 == "*Schema"
+          | .many k _ => k == f.2.2.1 && f.2.1 == "[]*Schema"
+          | .keyed k _ => k == f.2.2.1 && f.2.1 == "map[string]*Schema") = true ∧
+    -- the three `-`-tagged ones are written through the wrapper struct
+    ((Generated.schemaFields.filter fun f => Go.mentionsSchema f.2.1 && f.2.2.1 == "-").map (·.1))
+      = ["DependencySchemas", "Items", "ItemsArray"] := by
+  decide
+
+/-! ## The hypotheses are satisfiable on non-trivial data -/
+
+/-- root 0: allOf [1, 2], properties {b ↦ 3, a ↦ 1 (shared with allOf: a DAG)}, $defs with a nil entry -/
+def exStore : Store := #[
+  { title := "root", allOf := some [1, 2], properties := some [("b", 3), ("a", 1)],
+    defs := some [("z", Go.nilId)], required := some ["a"], propertyOrder := some ["b"] },
+  { type := "string", minLength := some 1 },
+  { not := some 3, extra := some [("x-note", .str "hi")] },
+  { enum := some [.num 1, .null] }]
+
+example : Go.Good Go.nilId exStore 3 0 := Go.goodB_sound _ _ _ _ (by decide)
+
+/-- the clone of `exStore` from 0: 6 new nodes (node 1 and node 3 are reached twice, so they are copied
+    twice), the clone's root is the last one allocated -/
+example : (match Go.clone exStore 0 with | .ok (c, st') => (c, st'.size) | _ => (0, 0)) = (9, 10) := by decide
+
+/-- `clone_marshal_eq` applied -/
+example (st' : Store) (c : NodeId) (h : Go.clone exStore 0 = .ok (c, st')) (hB : st'.size ≤ Go.nilId) (f : Nat) :
+    Go.marshalFuel st' f c = Go.marshalFuel exStore f 0 :=
+  clone_marshal_eq Go.nilId 3 exStore 0 c st' (Go.goodB_sound _ _ _ _ (by decide)) h hB f
+
+/-- … and with the hypothesis `h` discharged by evaluation: the whole statement on `exStore` -/
+example (f : Nat) :
+    ∃ c st', Go.clone exStore 0 = .ok (c, st') ∧ Go.marshalFuel st' f c = Go.marshalFuel exStore f 0 := by
+  have hd : (match Go.clone exStore 0 with | .ok (c, st') => (c, st'.size) | _ => (0, 0)) = (9, 10) := by
+    decide
+  cases h : Go.clone exStore 0 with
+  | ok r =>
+    obtain ⟨c, st'⟩ := r
+    rw [h] at hd
+    have hsz : st'.size = 10 := by simpa using (Prod.mk.inj hd).2
+    exact ⟨c, st', rfl, clone_marshal_eq Go.nilId 3 exStore 0 c st' (Go.goodB_sound _ _ _ _ (by decide)) h
+      (by rw [hsz]; decide) f⟩
+  | fuel => rw [h] at hd; cases hd
+  | panic => rw [h] at hd; cases hd
+  | err => rw [h] at hd; cases hd
+
+/-- why `st'.size ≤ B` is assumed: a "nil" id that the clone's own allocations reach stops being nil.
+    Here node 0 has `not := some 1` with 1 dangling (nil); the clone is allocated at id 1 and its `not`
+    field is still `some 1`: the clone is cyclic, the original marshals to {"not":null}.
+    (Unrealisable in Go: the model's nil inside fields is `none`, inside slices / maps `nilId = 10^9`.) -/
+example :
+    Go.clone #[{ not := some 1 }] 0 = .ok (1, #[{ not := some 1 }, { not := some 1 }]) ∧
+    Go.marshal #[{ not := some 1 }] 0 = .ok (.obj [("not", .null)]) ∧
+    Go.marshal #[{ not := some 1 }, { not := some 1 }] 1 = .fuel :=
+  ⟨by rfl, by rfl, by rfl⟩
 
 end JSV.C20
